@@ -1,0 +1,36 @@
+//go:build verif
+
+package main
+
+// Verification hook (C10): exposes the unexported argvToCmdLineStr of the real
+// binary. With MUREX_VERIF_CMDLINE=1 the process reads one JSON array of strings
+// per line on stdin and prints the JSON string argvToCmdLineStr(argv) per line.
+// Without the build tag, or without the variable, nothing changes.
+
+import (
+	"bufio"
+	"encoding/json"
+	"os"
+)
+
+func init() {
+	if os.Getenv("MUREX_VERIF_CMDLINE") != "1" {
+		return
+	}
+	in := bufio.NewScanner(os.Stdin)
+	in.Buffer(make([]byte, 1<<20), 1<<26)
+	out := bufio.NewWriter(os.Stdout)
+	for in.Scan() {
+		var argv []string
+		if err := json.Unmarshal(in.Bytes(), &argv); err != nil {
+			out.WriteString("null\n")
+			out.Flush()
+			continue
+		}
+		b, _ := json.Marshal(argvToCmdLineStr(argv))
+		out.Write(b)
+		out.WriteByte('\n')
+		out.Flush()
+	}
+	os.Exit(0)
+}
